@@ -336,7 +336,17 @@ def parse_module(text):
             f.params = newp
             cur = '%%%d' % k
             f.blocks[cur] = []
+            # a switch spans several lines: "switch ... [" / "  i32 1, label %x" ... / "]"
+            joined = []; acc = None
             for l in lines[1:-1]:
+                if acc is not None:
+                    acc += ' ' + l.strip()
+                    if l.strip().startswith(']'): joined.append(acc); acc = None
+                    continue
+                if re.match(r'^\s+switch\s', l) and l.rstrip().endswith('['): acc = l.rstrip(); continue
+                if re.match(r'^\s+to label ', l) and joined: joined[-1] = joined[-1].rstrip() + ' ' + l.strip(); continue   # invoke ... / to label %a unwind label %b
+                joined.append(l)
+            for l in joined:
                 if not l.strip() or l.lstrip().startswith(';'): continue
                 mm = re.match(r'^([-a-zA-Z$._0-9]+|"[^"]*"):', l)
                 if mm and not l.startswith(' '):
